@@ -537,6 +537,36 @@ pub fn cases(seed: u64, tier: Tier) -> Cases {
         let doc = random_json(&mut rng, 3);
         json_case(&mut cs, &doc);
     }
+    // single-precision values that are not dyadic (outside the model, which carries f32 widened): the JSON of the
+    // Any must be the JSON of the value, and the value must come back, alone and nested
+    for x in [0.1f32, 0.2, 3.3, 1e-7, f32::MAX, f32::MIN_POSITIVE, 16777217.0, -0.3, 1.0e10, 2.5e-20] {
+        #[derive(serde::Serialize, serde::Deserialize, PartialEq, Debug, Clone)]
+        struct W {
+            a: f32,
+            l: Vec<f32>,
+            o: Option<f32>,
+        }
+        let w = W { a: x, l: vec![x, -x], o: Some(x) };
+        let r = guarded(|| {
+            let any = conjure_object::Any::new(&w).map_err(|e| e.to_string())?;
+            let j_any = conjure_serde::json::to_string(&any).map_err(|e| e.to_string())?;
+            let j_val = conjure_serde::json::to_string(&w).map_err(|e| e.to_string())?;
+            let back: W = any.deserialize_into().map_err(|e| e.to_string())?;
+            Ok::<_, String>((j_any, j_val, back))
+        });
+        cs.push("f32", "noop".into(), "noop".into(), true, format!("Any::new({:?})", w));
+        match r {
+            Err(p) => cs.fail_last("any:f32:panic", p),
+            Ok(Err(e)) => cs.fail_last("any:f32:failed", format!("{:?}: {}", w, e)),
+            Ok(Ok((j_any, j_val, back))) => {
+                if j_any != j_val {
+                    cs.fail_last("any:json-differs:f32", format!("JSON of the Any is {} but JSON of the value is {}", j_any, j_val));
+                } else if back != w {
+                    cs.fail_last("any:roundtrip:f32", format!("{:?} came back as {:?}", w, back));
+                }
+            }
+        }
+    }
     cs
 }
 
